@@ -71,8 +71,10 @@ def chunks(seq: list, n: int) -> list[list]:
 def eval_families(pool: Pool, seeds: list[int], per_seed: int, cases: list[dict],
                   kinds: dict[str, dict], want_keys: bool) -> dict[str, dict[int, dict]]:
     """-> fam id -> seed -> record"""
-    from ptverif.eqlib import SYM_MEMBERS
-    members = {k: list(v["members"]) + SYM_MEMBERS.get(k, []) for k, v in kinds.items()}
+    from ptverif.eqlib import SYM_MEMBERS, key_members
+    members = {k: list(v["members"]) + SYM_MEMBERS.get(k, [])
+               + (key_members(v["members"]) if want_keys else [])
+               for k, v in kinds.items()}
     parts = chunks(cases, per_seed)
     widx = {(s, k): pool.workers[i * per_seed + k]
             for i, s in enumerate(seeds) for k in range(per_seed)}
@@ -103,12 +105,22 @@ def eval_families(pool: Pool, seeds: list[int], per_seed: int, cases: list[dict]
 OBS_FIELDS = ("eq", "ne", "hash", "inset", "indict", "stale")
 
 
-def _pad_identity(m: list[list[bool]], n: int) -> list[list[bool]]:
-    """The generator's expected identity matrix extended for the members added
-    in Python (symbolic-shape presentations): each of those is structurally
-    different from every other member."""
+def _pad_identity(m: list[list[bool]], n: int, names: list[str] | None = None
+                  ) -> list[list[bool]]:
+    """The generator's expected matrix extended for the members added in
+    Python: a member with an alias (eqlib.ALIASES: derived through the public
+    API, must be structurally identical to a generated member) takes the row
+    of its alias; every other added member (symbolic-shape presentations,
+    several tags, ...) is different from every other member."""
+    from ptverif.eqlib import ALIASES
     k = len(m)
-    return [[(m[i][j] if i < k and j < k else i == j) for j in range(n)] for i in range(n)]
+    rep = list(range(n))
+    if names is not None:
+        for i, nm in enumerate(names):
+            if nm in ALIASES:
+                rep[i] = names.index(ALIASES[nm])
+    return [[(m[rep[i]][rep[j]] if rep[i] < k and rep[j] < k else rep[i] == rep[j])
+             for j in range(n)] for i in range(n)]
 
 
 def family_records(fams: dict[str, dict[int, dict]], kinds: dict[str, dict],
@@ -130,7 +142,8 @@ def family_records(fams: dict[str, dict[int, dict]], kinds: dict[str, dict],
                 rec = {"id": fid if not by_export else f"{fid}#{len(by_export)}",
                        "rel": "family", "kind": r["kind"], "ctx": r["ctx"],
                        "names": r["names"], "nodes": r["nodes"], "roots": r["roots"],
-                       "expect": _pad_identity(kinds[r["kind"]]["ident"], len(r["names"])),
+                       "expect": _pad_identity(kinds[r["kind"]]["ident"], len(r["names"]),
+                                                 r["names"]),
                        "obs": [], "seeds": []}
                 by_export[sig] = rec
             rec["obs"].append({f: r[f] for f in OBS_FIELDS})
